@@ -227,7 +227,7 @@ def mergeFieldsH (S : Schema) (σ : Nat → Bool) (fuel : Nat) (fields : List Fi
           else next (hsetSlot es i (.rep 0 none)) (hsetSlot ls i (.rep ne ea)) h
         else next es ls h
       | _, _ => next es ls h
-    else if fi.label == .optional || fi.label == .none then
+    else if fi.label == .optional || fi.label == .none || (fi.label == .required && fi.type == .message) then
       let ecase := hqRead fi (hgetSlot es i)
       let lcase := hqRead fi (hgetSlot ls i)
       let sel : Option (Option Nat) :=
